@@ -129,23 +129,45 @@ structure Interest where
   mbf : Bool
   nonce : Nat
   life : Nat
+  hop : Option Nat := none      -- HopLimit after the decrement of the incoming pipeline
+  nhf : Option Nat := none      -- NDNLPv2 NextHopFaceId
 
-/-- tail of `processIncomingInterest` from `UpdateExpirationTimer` on: FIB lookup, strategy,
-    out-records -/
+/-- the faces of the history: 1..4, all non-local point-to-point -/
+def faceExists (f : Nat) : Bool := decide (1 ≤ f ∧ f ≤ 4)
+
+/-- first component is `localhost` -/
+def isLocalhost (n : Name) : Bool :=
+  match n with
+  | c :: _ => c.val == [108, 111, 99, 97, 108, 104, 111, 115, 116]
+  | [] => false
+
+/-- the faces an Interest is sent to (`processOutgoingInterest` succeeds: the face exists, is not
+    the arrival face, and the HopLimit is not 0 — every face is non-local), for the entry `e` whose
+    in-record was just updated: the NextHopFaceId when present, else the strategy's choice among the
+    FIB next hops -/
+def fwdTargets (s : St) (e : PitEntry) (i : Interest) : List (Nat × Nat) :=
+  let now := s.now
+  let hopOk := i.hop != some 0
+  match i.nhf with
+  | some f => if faceExists f && f != i.face && hopOk then [(f, 0)] else []
+  | none =>
+    let allowed := s.cfg.nexthops.filter (fun nh => !(e.ins.any (fun r => r.face == nh.1)) || nh.1 == i.face)
+    if allowed.isEmpty then []
+    else if e.outs.any (fun r => r.nonce != i.nonce && decide (r.ts + suppress > now)) then []
+    else
+      let sendable := fun (l : List (Nat × Nat)) => if hopOk then l.filter (fun nh => nh.1 != i.face) else []
+      match s.cfg.strat with
+      | .multi => sendable allowed
+      | .best => (sendable (sortByCost allowed)).take 1
+
+/-- tail of `processIncomingInterest` from `UpdateExpirationTimer` on: NextHopFaceId or FIB lookup +
+    strategy, out-records -/
 def forward (s : St) (e : PitEntry) (i : Interest) : St × List Send :=
   let now := s.now
   let e2 := { e with sched := some (latest now e) }
-  let allowed := s.cfg.nexthops.filter (fun nh => !(e.ins.any (fun r => r.face == nh.1)) || nh.1 == i.face)
-  if allowed.isEmpty then ({ s with pit := setEntry s.pit e2 }, [])
-  else if e2.outs.any (fun r => r.nonce != i.nonce && decide (r.ts + suppress > now)) then
-    ({ s with pit := setEntry s.pit e2 }, [])
-  else
-    let sendable := fun (l : List (Nat × Nat)) => l.filter (fun nh => nh.1 != i.face)
-    let targets := match s.cfg.strat with
-      | .multi => sendable allowed
-      | .best => (sendable (sortByCost allowed)).take 1
-    let outs' := targets.foldl (fun outs nh => upsertOut outs nh.1 i.nonce now (now + i.life) i.name) e2.outs
-    ({ s with pit := setEntry s.pit { e2 with outs := outs' } }, targets.map (fun nh => Send.interest nh.1 i.name))
+  let targets := fwdTargets s e2 i
+  let outs' := targets.foldl (fun outs nh => upsertOut outs nh.1 i.nonce now (now + i.life) i.name) e2.outs
+  ({ s with pit := setEntry s.pit { e2 with outs := outs' } }, targets.map (fun nh => Send.interest nh.1 i.name))
 
 /-- `processIncomingInterest` from `InsertInRecord` on (after the duplicate-nonce test), for the PIT
     entry `e` of the Interest -/
@@ -186,6 +208,17 @@ def procInterest (ord : List Name → List Name) (s : St) (i : Interest) : St ×
       interestTail ord
         { s with cs := { s.cs with nodes := fill s.cs.nodes i.name }, pit := s.pit ++ [e],
                  nPit := s.nPit + 1, tokNext := s.tokNext + 1 } e i
+
+/-- `processIncomingInterest` from the top: the drops that precede the PIT (unknown arrival face,
+    HopLimit 0, /localhost from a non-local face, no Nonce), HopLimit decrement -/
+def procInterestPkt (ord : List Name → List Name) (s : St) (face : Nat) (name : Name) (cbp mbf : Bool)
+    (nonce : Option Nat) (life : Nat) (hop nhf : Option Nat) : St × List Send :=
+  if !faceExists face then (s, [])
+  else if hop == some 0 then (s, [])
+  else if isLocalhost name then (s, [])
+  else match nonce with
+    | none => (s, [])
+    | some x => procInterest ord s ⟨face, name, cbp, mbf, x, life, hop.map (· - 1), nhf⟩
 
 structure DataPkt where
   face : Nat
@@ -228,6 +261,13 @@ def procData (s : St) (d : DataPkt) : St × List Send :=
       let cur := (getEntry s2.pit e.tok).getD e
       (satisfy s2 e, acc.2 ++ ((cur.ins.filter (fun r => r.face != d.face)).map (fun r => Send.data r.face d.name))))
       (s1, [])
+
+/-- `processIncomingData` from the top: unknown arrival face and /localhost from a non-local face
+    are dropped before the Content Store is touched -/
+def procDataPkt (s : St) (d : DataPkt) : St × List Send :=
+  if !faceExists d.face then (s, [])
+  else if isLocalhost d.name then (s, [])
+  else procData s d
 
 /-- `RemoveInterest`: the last entry of the node takes the place of the removed one -/
 def removeSwap (pit : List PitEntry) (e : PitEntry) : List PitEntry :=
@@ -284,14 +324,15 @@ def setCap (s : St) (k : Nat) : St := { s with cs := C07.setCap s.cs k }
 /-- the events of a forwarding thread: a packet arrives, management changes the capacity, or `d`
     nanoseconds pass (`tie` resolves simultaneous timers, `fuel` bounds the timer events) -/
 inductive Op where
-  | interest (ord : List Name → List Name) (i : Interest)
+  | interest (ord : List Name → List Name) (face : Nat) (name : Name) (cbp mbf : Bool) (nonce : Option Nat)
+      (life : Nat) (hop nhf : Option Nat)
   | data (d : DataPkt)
   | cap (k : Nat)
   | adv (tie : Nat → Bool) (fuel : Nat) (d : Nat)
 
 def step (s : St) : Op → St
-  | .interest ord i => (procInterest ord s i).1
-  | .data d => (procData s d).1
+  | .interest ord face name cbp mbf nonce life hop nhf => (procInterestPkt ord s face name cbp mbf nonce life hop nhf).1
+  | .data d => (procDataPkt s d).1
   | .cap k => setCap s k
   | .adv tie fuel d => advanceTo tie fuel s (s.now + d)
 
